@@ -1,0 +1,79 @@
+//go:build verif
+
+/*
+ * Licensed to the Apache Software Foundation (ASF) under one or more
+ * contributor license agreements.  See the NOTICE file distributed with
+ * this work for additional information regarding copyright ownership.
+ * The ASF licenses this file to You under the Apache License, Version 2.0
+ * (the "License"); you may not use this file except in compliance with
+ * the License.  You may obtain a copy of the License at
+ *
+ *     http://www.apache.org/licenses/LICENSE-2.0
+ *
+ * Unless required by applicable law or agreed to in writing, software
+ * distributed under the License is distributed on an "AS IS" BASIS,
+ * WITHOUT WARRANTIES OR CONDITIONS OF ANY KIND, either express or implied.
+ * See the License for the specific language governing permissions and
+ * limitations under the License.
+ */
+
+package handler
+
+// Verification contracts (comment-only, tag verif) for property C05: a TCC prepare registers its
+// Verification contracts (comment-only, tag verif) for property C06: the TCC fence decisions against
+// an abstract fence store. ghost.fence_status is the status of THE branch's fence record in the
+// store (0 = no record, then enum.FenceStatus 1 tried, 2 committed, 3 rollbacked, 4 suspended).
+// Assumed store semantics (unique key on xid+branch id; conditional update): an insert succeeds
+// only if there is no record, an update only if the record has the expected old status; a failing
+// operation changes nothing; everything happens inside the caller's transaction.
+//@ ghost var fence_status int
+//@ iface (dao.TCCFenceStore).QueryTCCFenceDO
+//@   ensures result1 == nil ==> ((ghost.fence_status == 0) == (result0 == nil)) && (result0 != nil ==> result0.Status == ghost.fence_status)
+//@ iface (dao.TCCFenceStore).InsertTCCFenceDO
+//@   modifies ghost.fence_status
+//@   ensures (result == nil ==> old(ghost.fence_status) == 0 && ghost.fence_status == tccFenceDo.Status) && (result != nil ==> ghost.fence_status == old(ghost.fence_status))
+//@ iface (dao.TCCFenceStore).UpdateTCCFenceDO
+//@   modifies ghost.fence_status
+//@   ensures (result == nil ==> old(ghost.fence_status) == oldStatus && ghost.fence_status == newStatus) && (result != nil ==> ghost.fence_status == old(ghost.fence_status))
+//@ func (*tccFenceWrapperHandler).pushCleanChannel
+//@   trusted
+//@   ensures true
+//@ ext errors.Unwrap
+//@   ensures true
+
+//@ func (*tccFenceWrapperHandler).PrepareFence
+//@   prop C06
+//@   requires handler != nil && handler.tccFenceDao != nil && ctx != nil
+//@   let cv := ctxvalue(ctx, tm.seataContextVariable)
+//@   requires cv != nil && isT(cv, *tm.ContextVariable) && cv.(*tm.ContextVariable) != nil && cv.(*tm.ContextVariable).BusinessActionContext != nil
+//@   requires ghost.fence_status >= 0 && ghost.fence_status <= 4
+//@   modifies ghost.fence_status
+//@   ensures try-recorded-once: result == nil ==> old(ghost.fence_status) == 0 && ghost.fence_status == 1
+//@   ensures refused-try-changes-nothing: result != nil ==> ghost.fence_status == old(ghost.fence_status)
+//@   ensures anti-suspension: old(ghost.fence_status) != 0 ==> result != nil
+//@   at call InsertTCCFenceDO#1: assert record-of-this-branch: arg_tx == tx && arg_tccFenceDo.Xid == cv.(*tm.ContextVariable).BusinessActionContext.Xid && arg_tccFenceDo.BranchId == cv.(*tm.ContextVariable).BusinessActionContext.BranchId && arg_tccFenceDo.Status == enum.StatusTried
+
+//@ func (*tccFenceWrapperHandler).CommitFence
+//@   prop C06
+//@   requires handler != nil && handler.tccFenceDao != nil && ctx != nil
+//@   let cv := ctxvalue(ctx, tm.seataContextVariable)
+//@   requires cv != nil && isT(cv, *tm.ContextVariable) && cv.(*tm.ContextVariable) != nil && cv.(*tm.ContextVariable).BusinessActionContext != nil
+//@   requires ghost.fence_status >= 0 && ghost.fence_status <= 4
+//@   modifies ghost.fence_status
+//@   ensures only-tried-becomes-committed: ghost.fence_status != old(ghost.fence_status) ==> old(ghost.fence_status) == 1 && ghost.fence_status == 2 && result == nil
+//@   ensures success-means-committed: result == nil ==> ghost.fence_status == 2
+//@   ensures never-after-cancel: old(ghost.fence_status) == 3 || old(ghost.fence_status) == 4 || old(ghost.fence_status) == 0 ==> result != nil
+//@   at call QueryTCCFenceDO#1: assert asks-about-this-branch: arg_tx == tx && arg_xid == cv.(*tm.ContextVariable).BusinessActionContext.Xid && arg_branchId == cv.(*tm.ContextVariable).BusinessActionContext.BranchId
+
+//@ func (*tccFenceWrapperHandler).RollbackFence
+//@   prop C06
+//@   requires handler != nil && handler.tccFenceDao != nil && ctx != nil
+//@   let cv := ctxvalue(ctx, tm.seataContextVariable)
+//@   requires cv != nil && isT(cv, *tm.ContextVariable) && cv.(*tm.ContextVariable) != nil && cv.(*tm.ContextVariable).BusinessActionContext != nil
+//@   requires ghost.fence_status >= 0 && ghost.fence_status <= 4
+//@   modifies ghost.fence_status
+//@   ensures transitions: ghost.fence_status != old(ghost.fence_status) ==> result == nil && ((old(ghost.fence_status) == 1 && ghost.fence_status == 3) || (old(ghost.fence_status) == 0 && ghost.fence_status == 4))
+//@   ensures success-means-cancelled: result == nil ==> ghost.fence_status == 3 || ghost.fence_status == 4
+//@   ensures early-rollback-suspends: old(ghost.fence_status) == 0 && result == nil ==> ghost.fence_status == 4
+//@   ensures never-after-confirm: old(ghost.fence_status) == 2 ==> result != nil
+//@   at call QueryTCCFenceDO#1: assert asks-about-this-branch: arg_tx == tx && arg_xid == cv.(*tm.ContextVariable).BusinessActionContext.Xid && arg_branchId == cv.(*tm.ContextVariable).BusinessActionContext.BranchId
